@@ -6,6 +6,11 @@ import IrVerif.Lemmas.ScopeIdem
 import IrVerif.Lemmas.ScopeKernel
 import IrVerif.Lemmas.ScopeReplDeser
 import IrVerif.Lemmas.ScopeModel
+import IrVerif.Lemmas.ScopeModelDup
+import IrVerif.Lemmas.ScopeMeta
+import IrVerif.Model.ScopeFunc9
+import IrVerif.Lemmas.ScopeExt
+import IrVerif.Lemmas.ScopeExtInv
 namespace IrVerif.Scope
 
 /-- **C17_total**: `deserialize` is a total function on every `GraphP`, with no well-formedness
@@ -298,6 +303,193 @@ theorem C17_idempotent_model_partial (P : ModelP) (m : MWorld) (hd : deserialize
       serializeM m = .ok (m1, Q) ∧ deserializeM Q = .ok D ∧ serializeM D = .ok (m2, Q) :=
   reloadableM_fixpoint m (deserializeM_reloadable P m hd hid)
 
+/-- **C17_idempotent_model** (the full statement for models with functions; supersedes
+    `C17_idempotent_model_partial`): NO hypothesis beyond `deserializeM P = .ok m`.  In particular several
+    `FunctionProto`s may carry the same identifier (domain, name, overload): `deserialize_model` deserializes
+    every one of them (their values stay in the store), `{func.identifier(): func}` keeps for each identifier
+    the position of the first and the graph of the last, the first serialization writes the kept functions
+    only, and that proto is a fix-point.  Serialization of what `deserializeM` returns never raises in the
+    model (every value it creates has a name), so "raises or is a fix-point" holds in its stronger form.
+    Proof: `deserializeM_reloadable_all` (the kept functions are a sub-family of the deserialized ones, each
+    certified, with pairwise disjoint values; the keys of the dict are distinct) and `reloadableM_fixpoint`. -/
+theorem C17_idempotent_model (P : ModelP) (m : MWorld) (hd : deserializeM P = .ok m) :
+    ∃ (m1 : MWorld) (Q : ModelP) (D : MWorld) (m2 : MWorld),
+      serializeM m = .ok (m1, Q) ∧ deserializeM Q = .ok D ∧ serializeM D = .ok (m2, Q) :=
+  reloadableM_fixpoint m (deserializeM_reloadable_all P m hd)
+
+/-! ### the decoration layer (`Model/ScopeMeta.lean`): metadata_props of model / graph / node / function, opset
+imports, the `_get_field` fields (doc_string, graph name, producer ...), model and node device configurations,
+function attributes -/
+
+/-- **C17_meta_idempotent**: for EVERY decorated proto `X` (duplicate metadata keys, duplicate opset domains,
+    duplicate function identifiers, duplicate / valueless function attributes, device configurations with an
+    empty configuration_id or an empty tensor_name, any IR version): if serializing the deserialized
+    decorations does not raise, the proto `Q` it writes is a fix-point of deserialize-then-serialize.
+    (Serialization does raise in the model: a node device configuration without configuration, a sharding
+    spec without value, at IR version >= 11 — `serDev` / `serSpecs`; below 11 they are dropped silently.)
+    Content of the proof: `{k: v}` keeps first position / last value and has distinct keys; `sorted` is
+    idempotent and a dict with distinct keys is read back unchanged; a falsy optional field stays absent;
+    the valued / valueless partition of the function attributes is stable; what `serDev` accepts is read
+    back as it was. -/
+theorem C17_meta_idempotent (X Q : ModelDP) (h : serModelD (deserModelD X) = .ok Q) :
+    serModelD (deserModelD Q) = .ok Q :=
+  (rtModelD _ Q (wfDeserModelD X) h).2
+
+/-- **C17_idempotent_decorated**: core model (main graph, functions: `C17_idempotent_model`) and decorations
+    together: whenever `deserializeX X = .ok W`, serializing `W` raises — and then only in the decorations (the
+    device-configuration checks) — or yields a proto that deserializes and serializes to itself.  No
+    hypothesis on `X`. -/
+theorem C17_idempotent_decorated (X : XModelP) (W : XWorld) (hd : deserializeX X = .ok W) :
+    (∃ e, serializeX W = .error (.deco e)) ∨
+    ∃ (W1 : XWorld) (Q : XModelP) (D : XWorld) (W2 : XWorld),
+      serializeX W = .ok (W1, Q) ∧ deserializeX Q = .ok D ∧ serializeX D = .ok (W2, Q) := by
+  simp only [deserializeX] at hd
+  split at hd
+  · simp at hd
+  · rename_i m hm
+    simp only [Except.ok.injEq] at hd
+    subst hd
+    obtain ⟨m1, Qc, Dc, m2, h1, h2, h3⟩ := C17_idempotent_model X.core m hm
+    cases hq : serModelD (deserModelD X.deco) with
+    | error e => exact .inl ⟨e, by simp only [serializeX, h1, hq]⟩
+    | ok Qd =>
+      have hfix := C17_meta_idempotent X.deco Qd hq
+      exact .inr ⟨⟨m1, deserModelD X.deco⟩, ⟨Qc, Qd⟩, ⟨Dc, deserModelD Qd⟩, ⟨m2, deserModelD Qd⟩,
+        by simp only [serializeX, h1, hq], by simp only [deserializeX, h2], by simp only [serializeX, h3, hfix]⟩
+
+/-- **C17_meta_aligned**: the decorations stay on their carrier also where the carrier is chosen by a dict:
+    when the decorated functions of the proto carry the identifiers of the core functions (same order), the
+    functions dict of the decorations has the keys of the functions dict of the core, in the same order —
+    with duplicate identifiers too (both keep the first position; `C17_idempotent_decorated` shows both keep
+    a fix-point). -/
+theorem C17_meta_aligned (X : XModelP) (W : XWorld) (hd : deserializeX X = .ok W)
+    (hid : X.deco.funcs.map (·.id) = X.core.funcs.map (·.id)) :
+    W.deco.funcs.map (·.1) = W.core.funcs.map (·.1) := by
+  simp only [deserializeX] at hd
+  split at hd
+  · simp at hd
+  · rename_i m hm
+    simp only [Except.ok.injEq] at hd
+    subst hd
+    simp only [deserializeM] at hm
+    split at hm
+    · simp at hm
+    · rename_i st g _
+      split at hm
+      · simp at hm
+      · rename_i st1 fs hfs
+        simp only [Except.ok.injEq] at hm
+        subst hm
+        show (deserFuncsD [] X.deco.funcs).map (·.1) = fs.map (·.1)
+        rw [deserFuncsD_keys, deserFuncs_keys _ _ _ _ _ hfs, hid]
+        rfl
+
+/-! ### the IR version < 10 format of function value info (`Model/ScopeFunc9.lean`) -/
+
+/-- main graph: `Identity(x) -> "custom::f/c"`, `Identity("custom::f/c") -> y`; function `custom::f`:
+    `Identity(a) -> c` with `value_info [c : f32]`.  The name of the main-graph value has the form under which
+    the IR < 10 format stores the value info of the function value `c` in the main graph. -/
+def exampleIR9 : ModelP :=
+  ⟨.mk [⟨"x", { ty := some "f32" }⟩] [] []
+      [ .mk ["x"] ["custom::f/c"] [], .mk ["custom::f/c"] ["y"] [] ] [⟨"y", { ty := some "f32" }⟩],
+    [⟨⟨"custom", "f", ""⟩, ["a"], ["c"], [⟨"c", { ty := some "f32" }⟩], [ .mk ["a"] ["c"] [] ]⟩]⟩
+
+/-- the lengths of the main graph's value_info after the first and after the second
+    deserialize-then-serialize -/
+def vinfoLens9 (fixed : Bool) (P : ModelP) : Option (Nat × Nat) :=
+  match deserializeM9 P with
+  | .error _ => none
+  | .ok m =>
+    match serializeM9 fixed m with
+    | .error _ => none
+    | .ok (_, Q) =>
+      match deserializeM9 Q with
+      | .error _ => none
+      | .ok D =>
+        match serializeM9 fixed D with
+        | .error _ => none
+        | .ok (_, Q2) => some (Q.graph.vinfo.length, Q2.graph.vinfo.length)
+
+/-- **C17_ir9_not_idempotent** (finding D320, repaired in /repo f0d2984): for the IR version < 10 format the
+    fix-point statement was FALSE — in the model of the code before the repair (`serializeM9 false`) there is a
+    proto `P` that deserializes, whose serialization `Q` deserializes, and whose second serialization `Q2` is not
+    `Q` (the main graph's value_info has one entry in `Q` and two in `Q2`).  The witness `exampleIR9` reproduced
+    on the real code (corpus/C17 `D320`, proposed_fixes/D320.md).  The model of the repaired code is
+    `serializeM9 true`; the correspondence check compares its `Q` AND `Q2` with the real ones on every generated
+    IR < 10 model with functions; a fix-point THEOREM for `serializeM9 true` is not proved (the examples below
+    are evaluations). -/
+theorem C17_ir9_not_idempotent :
+    ∃ (P : ModelP) (m m1 : MWorld) (Q : ModelP) (D m2 : MWorld) (Q2 : ModelP),
+      deserializeM9 P = .ok m ∧ serializeM9 false m = .ok (m1, Q) ∧ deserializeM9 Q = .ok D ∧
+      serializeM9 false D = .ok (m2, Q2) ∧ Q2.graph.vinfo.length ≠ Q.graph.vinfo.length := by
+  have h : vinfoLens9 false exampleIR9 = some (1, 2) := by decide +kernel
+  unfold vinfoLens9 at h
+  split at h
+  · simp at h
+  · rename_i m hm
+    split at h
+    · simp at h
+    · rename_i m1 Q hq
+      split at h
+      · simp at h
+      · rename_i D hD
+        split at h
+        · simp at h
+        · rename_i m2 Q2 hq2
+          simp only [Option.some.injEq, Prod.mk.injEq] at h
+          exact ⟨exampleIR9, m, m1, Q, D, m2, Q2, hm, hq, hD, hq2, by omega⟩
+
+/-- with the repair of D320 (`serializeM9 true`: no experimental entry under the name of a main-graph value) the
+    witness is a fix-point: no entry is written at all -/
+example : vinfoLens9 true exampleIR9 = some (0, 0) := by decide +kernel
+
+/-- and without a name collision the format works as intended (one entry, stable) -/
+example : vinfoLens9 false ⟨.mk [⟨"x", {}⟩] [] [] [ .mk ["x"] ["y"] [] ] [⟨"y", {}⟩], exampleIR9.funcs⟩ = some (1, 1) := by
+  decide +kernel
+
+/-! ### the extended model (`Model/ScopeExt.lean`): merged value metadata, quantization annotations, sharding
+values of node device configurations -/
+
+/-- **C17_ext_erasure**: the extended deserializer (which threads the merged `metadata_props` of every value, its
+    quantization annotation and the resolved sharding values of every node next to the store) run on ANY
+    extended proto, and the core deserializer run on the erased proto (value infos without their metadata, no
+    annotations, no device configurations), return the same store and the same tree, or the same error: none
+    of the three features influences name resolution, allocation, use-def links or ownership. -/
+theorem C17_ext_erasure (p : GraphE) :
+    (match deserializeE p with
+      | .ok w => deserialize (eraseG p) = .ok w.core
+      | .error e => deserialize (eraseG p) = .error e) :=
+  deserializeE_erase p
+
+/-- **C17_consistent_ext**: `C17_consistent` and `C17_deserialize_WF` for the extended model: whatever the
+    metadata entries, quantization annotations and device configurations of the proto (dangling / repeated /
+    empty tensor names included), an IR that the extended deserializer returns has consistent use-def and
+    ownership links and satisfies the kernel invariant of C01. -/
+theorem C17_consistent_ext (p : GraphE) (w : WorldE) (h : deserializeE p = .ok w) :
+    Consistent w.core ∧ Kernel.WF (toKernel w.core) := by
+  have he := deserializeE_erase p
+  rw [h] at he
+  exact ⟨C17_consistent _ _ he, C17_deserialize_WF _ _ he⟩
+
+/-- **C17_ext_sharding_named**: in every IR the extended deserializer returns, every value a sharding spec of a
+    node device configuration was RESOLVED to (`ShardV.val v`: the innermost binding of the spec's tensor_name in
+    the scopes visible at the node, placeholders of earlier and of this node included) is an allocated value of
+    the model and carries a non-empty name — the reference never dangles, and serializing the spec never raises
+    for lack of a value or of a name.  (Unresolved names become `ShardV.fresh`: a value entered nowhere.)  No
+    hypothesis on the proto.  Proof: induction over the four mutually recursive deserializers with the
+    invariants `Named` / `TablesLt` of every visible scope, imported from the core model through the erasure. -/
+theorem C17_ext_sharding_named (p : GraphE) (w : WorldE) (h : deserializeE p = .ok w) :
+    ∀ n d, d ∈ w.ext.devs n → ∀ s ∈ d.specs, ∀ v, s.1 = ShardV.val v →
+      v < w.st.nv ∧ ∃ t, t ≠ "" ∧ (w.st.vals v).name = some t :=
+  deserializeE_devsOK p w h
+
+/-- **C17_total_ext**: the extended deserializer is total (structural recursion, no fuel) -/
+theorem C17_total_ext (p : GraphE) :
+    (∃ w, deserializeE p = .ok w) ∨ (∃ e, deserializeE p = .error e) := by
+  cases h : deserializeE p with
+  | ok w => exact .inl ⟨w, rfl⟩
+  | error e => exact .inr ⟨e, rfl⟩
+
 /-- **C17_idempotent_partial**: if deserialization returns an IR `w` that is `Serializable` (the names
     of the proto were SSA per scope chain, every reference resolved to a definition of an enclosing
     scope, graph outputs were produced in their graph, no empty / duplicate names needed for
@@ -375,5 +567,63 @@ example : isOkB (deserializeM exampleModel) = true := by decide +kernel
 /-- … and `deserializeM` does reject: a function output that nothing in the function binds -/
 example : isOkB (deserializeM ⟨exampleSSA, [⟨⟨"dom", "f", ""⟩, ["a"], ["nowhere"], [], []⟩]⟩) = false := by
   decide +kernel
+
+/-- a model in which two functions carry the same identifier (the case `C17_idempotent_model_partial`
+    excludes): it deserializes, so `C17_idempotent_model` applies to it … -/
+def exampleDupModel : ModelP :=
+  ⟨exampleSSA,
+    [⟨⟨"dom", "f", ""⟩, ["a"], ["c"], [], [ .mk ["a", "zz"] ["c"] [] ]⟩,
+     ⟨⟨"dom", "g", ""⟩, [], [], [], []⟩,
+     ⟨⟨"dom", "f", ""⟩, ["a", "b"], ["a"], [⟨"a", { ty := some "f32" }⟩], [ .mk ["b"] ["d", ""] [] ]⟩]⟩
+
+example : isOkB (deserializeM exampleDupModel) = true := by decide +kernel
+
+/-- … its identifiers are indeed not distinct, and the dict keeps two of the three functions -/
+example : decide ((exampleDupModel.funcs.map (·.id)).Nodup) = false := by decide +kernel
+
+example : (match deserializeM exampleDupModel with | .ok m => m.funcs.length | .error _ => 0) = 2 := by
+  decide +kernel
+
+/-- decorations: metadata with a duplicate key (`b` twice: the last value wins at the first position, then
+    sorted), an opset domain twice, a node device configuration without configuration_id, a function with
+    the attribute `alpha` twice (valued, then valueless: it ends in `attribute`) -/
+def exampleDeco (ver : Int) : ModelDP :=
+  ⟨ver, [some "producer", some "", none], [("", "18"), ("custom", "1"), ("", "19")],
+    [("b", "1"), ("a", "2"), ("b", "3")], ["cfg0"],
+    .mk (some "main") (some "") [("k", "v")]
+      [ .mk "Add" none [("nk", "1"), ("nk", "2")] [⟨"", some "0", [("x", "spec")]⟩] [ .mk none none [] [] ] ],
+    [⟨⟨"dom", "f", ""⟩, some "doc", [("", "18")], [], [("alpha", true, "i:1"), ("beta", true, "s:x")], ["alpha"], []⟩]⟩
+
+/-- at IR version 10 the device configurations are dropped and the hypothesis of `C17_meta_idempotent` holds … -/
+example : isOkB (serModelD (deserModelD (exampleDeco 10))) = true := by decide +kernel
+
+/-- … at IR version 11 serialization raises (no configuration_id): the first alternative of
+    `C17_idempotent_decorated` is taken -/
+example : isOkB (serModelD (deserModelD (exampleDeco 11))) = false := by decide +kernel
+
+/-- the hypothesis of `C17_meta_aligned` is satisfiable (and `deserializeX` succeeds) -/
+example : isOkB (deserializeX ⟨exampleModel, exampleDeco 10⟩) = true ∧
+    (exampleDeco 10).funcs.map (·.id) = exampleModel.funcs.map (·.id) := by decide +kernel
+
+/-- an extended proto: input `x` with metadata, also a graph output with other metadata (merged), two
+    annotations for `x` (the last wins), an annotation for the dangling name `ghost`, a node whose device
+    configuration names `x` (resolved), `nowhere` (fresh value) and "" (no value) -/
+def exampleExt : GraphE :=
+  .mk [⟨"x", { ty := some "f32" }, [("k", "1"), ("a", "0")]⟩] [] []
+    [ .mk ["x", "ghost"] ["y"] [⟨"cfg0", none, [("x", "s0"), ("nowhere", "s1"), ("", "s2")]⟩] [] ]
+    [⟨"x", {}, [("k", "2")]⟩, ⟨"y", {}, []⟩]
+    [⟨"x", [("SCALE_TENSOR", "s")]⟩, ⟨"x", [("SCALE_TENSOR", "t")]⟩, ⟨"ghost", [("ZERO_POINT_TENSOR", "z")]⟩]
+
+/-- the hypothesis of `C17_consistent_ext` is satisfiable; the metadata of `x` is merged (`k` keeps its
+    position and takes the last value), the last annotation wins, the placeholder `ghost` is annotated, the
+    sharding values are resolved / fresh / absent -/
+def exampleExtChk : Bool :=
+  match deserializeE exampleExt with
+  | .ok w => w.ext.vmeta 0 == [("k", "2"), ("a", "0")] && w.ext.quant 0 == some [("SCALE_TENSOR", "t")] &&
+      w.ext.quant 2 == some [("ZERO_POINT_TENSOR", "z")] &&
+      (w.ext.devs 0).map (·.specs.map (·.1)) == [[ShardV.val 0, ShardV.fresh "nowhere", ShardV.none]]
+  | .error _ => false
+
+example : exampleExtChk = true := by decide +kernel
 
 end IrVerif.Scope
